@@ -355,6 +355,80 @@ def r3_rowwise(repo: Repo, rep):
                       f"argument depends on {sorted(role) or 'neither'} (P = points, Q = params)", what)
 
 
+def _rank(e: ast.AST, env_rank=None):
+    """number of axes of a membership answer, when it can be told from the expression: 1 = (N,), 2 = (N, 1); None = not told"""
+    if isinstance(e, ast.Call):
+        ch = attr_chain(e.func) or ""
+        name = e.func.attr if isinstance(e.func, ast.Attribute) else ch
+        if name in ("reshape", "view") and isinstance(e.func, ast.Attribute):
+            return len(e.args) if e.args and not any(isinstance(a, ast.Starred) for a in e.args) else None
+        if name == "unsqueeze" and isinstance(e.func, ast.Attribute):
+            r = _rank(e.func.value)
+            return None if r is None else r + 1
+        if name == "squeeze" and isinstance(e.func, ast.Attribute):
+            r = _rank(e.func.value)
+            return None if r is None else (r - 1 if e.args or e.keywords else None)
+        if ch in ("torch.tensor", "torch.as_tensor", "torch.Tensor") and e.args:
+            a = e.args[0]
+            if isinstance(a, (ast.ListComp, ast.GeneratorExp)):
+                return 1 if not isinstance(a.elt, (ast.List, ast.Tuple, ast.ListComp)) else 2
+            if isinstance(a, (ast.List, ast.Tuple)) and a.elts:
+                return 2 if all(isinstance(x, (ast.List, ast.Tuple)) for x in a.elts) else 1
+            return None
+        if ch in ("torch.zeros", "torch.ones", "torch.empty", "torch.full") and e.args:
+            dims = e.args[0].elts if isinstance(e.args[0], (ast.Tuple, ast.List)) else [a for a in e.args if not isinstance(a, ast.Starred)]
+            if isinstance(e.args[0], (ast.Tuple, ast.List)) or all(not isinstance(a, ast.Starred) for a in e.args):
+                return len(dims)
+            return None
+        if ch in ("torch.logical_and", "torch.logical_or", "torch.logical_xor", "torch.isclose", "torch.where") and len(e.args) >= 2:
+            rs = [_rank(a) for a in e.args[-2:]] if ch != "torch.where" else [_rank(a) for a in e.args]
+            rs = [r for r in rs if r is not None]
+            return max(rs) if rs else None
+        if ch in ("torch.logical_not",) and e.args:
+            return _rank(e.args[0])
+        if ch in ("torch.sum", "torch.all", "torch.any", "torch.prod", "torch.norm", "torch.linalg.norm", "torch.max", "torch.min") and e.args:
+            kd = kwarg(e, "keepdim")
+            r = _rank(e.args[0])
+            if kwarg(e, "dim", 1) is None and kwarg(e, "axis") is None:
+                return None
+            if r is None:
+                return None
+            return r if (kd is not None and dump(kd) == "True") else r - 1
+        return None
+    if isinstance(e, (ast.BinOp, ast.BoolOp, ast.Compare)):
+        parts = [e.left, e.right] if isinstance(e, ast.BinOp) else (e.values if isinstance(e, ast.BoolOp) else [e.left] + e.comparators)
+        rs = [r for r in (_rank(x) for x in parts) if r is not None]
+        return max(rs) if rs else None
+    if isinstance(e, ast.UnaryOp):
+        return _rank(e.operand)
+    return None
+
+
+def r6_answer_shape(repo: Repo, rep):
+    R = rep.rule("R-C05-6", "a membership answer is a column (N, 1): one truth value per input row that combines row-wise with the answers of other domains", floor=3,
+                 why="an (N,) answer broadcasts against an (N, 1) answer to an (N, N) matrix in every union / cut / intersection / product")
+    dom = repo.cls("problem.domains.domain.Domain")
+    n = 0
+    for ci in repo.subclasses(dom, strict=True):
+        fi = ci.methods.get("_contains")
+        if fi is None:
+            continue
+        for p in paths(fi.node, track_stores=True):
+            if p.ret is RAISE or p.ret is None:
+                continue
+            r = p.ret
+            while isinstance(r, ast.Call) and dump(r.func) == "__store__" and r.args:
+                r = r.args[0]  # a buffer filled by index stores keeps its allocated shape
+            rk = _rank(r)
+            if rk is None:
+                continue
+            n += 1
+            rep.saw(fi)
+            rep.check(R, rk == 2, fi.site(p.ret_node), fi.fq, "the answer has two axes (N, 1)", f"{rk} axis/axes: {dump(p.ret)[:100]}", f"rank {rk}")
+    if n == 0:
+        rep.undecided(R, dom.module.relpath, dom.fq, "membership answers whose shape can be told", "none")
+
+
 def _roles_of(expr: ast.AST, roles: Dict[str, Set[str]]) -> Set[str]:
     out = set()
     for n in ast.walk(expr):
@@ -549,6 +623,7 @@ def run(repo: Repo, rep):
     r3_rowwise(repo, rep)
     r4_cramer(repo, rep)
     r5_purity(repo, rep)
+    r6_answer_shape(repo, rep)
     from .c12 import r3_selection  # the name-based selection this property's idioms rely on
     r3_selection(repo, rep)
     from .c17 import r1_roundtrip  # a partially evaluated expression denotes the same set: every constructor argument (pivot, flags, sub-domains) must be carried over
